@@ -544,7 +544,7 @@ def judge(ctx, pid, plan, results):
 
 
 def run_c01(ctx):
-    ctx.rule = ("the real client binary (hex / base64 key, both protocols) against a scripted responder returning, for the "
+    ctx.rule = ("the real client binary (hex / HEX / base64 key, both protocols; validly signed forgeries incl. a truncated ROOT) against a scripted responder returning, for the "
                 "request actually received, every single-component forgery of an honest response (SIG, PATH, INDX, "
                 "SREP.{MIDP,RADI,ROOT,VER}, CERT.SIG, DELE.{PUBK,MINT,MAXT}), re-signing by another key, cross-protocol and "
                 "wrong-context splices, replays of earlier genuine responses, truncations, random mutations; non-trivial = "
@@ -597,7 +597,7 @@ def run_c01(ctx):
 
 
 def run_c03(ctx):
-    ctx.rule = ("the real client binary x key option (none / hex / base64) x protocol against an honest reference responder "
+    ctx.rule = ("the real client binary x key option (none / hex / HEX / mixed-case hex / base64) x protocol against an honest reference responder "
                 "with its own keys placing the client's request at index 0..63 of batches of depth 0..6, midpoints from the "
                 "epoch to year 9999 incl. x.000000 / x.999999, and against the real server binary; non-trivial = distinct "
                 "(protocol, key option, batch position/size, midpoint) with path depth >= 1")
